@@ -38,7 +38,7 @@ Definition placeholders : list string := [c_isodate cs; c_oid cs; c_uuid cs; c_e
 
 Definition strong (v : json) (d : verdict) : Prop :=
   match v with
-  | JStr s => (exists ph, d = VStr ph /\ In ph placeholders) \/ d = VHash \/ (d = VKeep /\ starts_with_dollar s = true)
+  | JStr s => (exists ph, d = VStr ph /\ In ph placeholders) \/ (d = VKeep /\ starts_with_dollar s = true)
   | JNum _ => if nums c then d = VNum else d = VKeep
   | JBool _ => if bools c then d = VBool else d = VKeep
   | JNull => d = VKeep
